@@ -842,10 +842,10 @@ func specialWitness(fn *ssa.Function, cs CallSite) (bool, string) {
 				if f == nil || len(call.Call.Args) != 1 || call.Call.Args[0] != e {
 					continue
 				}
-				switch NameOf(f) {
-				case "insMemOrder":
+				switch specialPredicateKind(f) {
+				case "memorder":
 					k = "memorder"
-				case "insSpecial":
+				case "special":
 					k = "special"
 				}
 			}
@@ -876,7 +876,7 @@ func specialWitness(fn *ssa.Function, cs CallSite) (bool, string) {
 			continue
 		}
 		if call, ok := iff.Cond.(*ssa.Call); ok {
-			if f := call.Call.StaticCallee(); f != nil && NameOf(f) == "isMemAccess" && call.Call.Args[0] == other {
+			if f := call.Call.StaticCallee(); f != nil && specialPredicateKind(f) == "memaccess" && call.Call.Args[0] == other {
 				memAcc = true
 			}
 		}
@@ -903,4 +903,61 @@ func guardOfEdge(pred, succ *ssa.BasicBlock) []Guard {
 		return []Guard{{Cond: iff.Cond, Outcome: false, If: iff}}
 	}
 	return nil
+}
+
+// specialPredicateKind classifies a one-argument predicate on an instruction
+// of package deps by what it computes (not by its name or by whether it is a
+// function or a method): "memorder" - the instruction type's MemOrder();
+// "special" - its Syscall()/CPUStateChange(); "memaccess" - it has loads or
+// stores.
+func specialPredicateKind(f *ssa.Function) string {
+	if f == nil || f.Blocks == nil || len(f.Params) != 1 || f.Signature.Results().Len() != 1 || PkgPathOf(f) != ModulePath+"/"+pkgDeps {
+		return ""
+	}
+	if b, ok := f.Signature.Results().At(0).Type().Underlying().(*types.Basic); !ok || b.Kind() != types.Bool {
+		return ""
+	}
+	typeCalls, lens := map[string]bool{}, map[string]bool{}
+	other := false
+	for _, b := range f.Blocks {
+		for _, in := range b.Instrs {
+			call, ok := in.(*ssa.Call)
+			if !ok {
+				continue
+			}
+			if bi, isB := call.Call.Value.(*ssa.Builtin); isB {
+				if bi.Name() == "len" {
+					if n, _, ok := FieldNameOfRead(call.Call.Args[0]); ok {
+						lens[n] = true
+						continue
+					}
+				}
+				other = true
+				continue
+			}
+			name := ""
+			if call.Call.IsInvoke() {
+				name = call.Call.Method.Name()
+			} else if g := call.Call.StaticCallee(); g != nil {
+				name = NameOf(g)
+			}
+			switch name {
+			case "MemOrder", "Syscall", "CPUStateChange":
+				typeCalls[name] = true
+			default:
+				other = true
+			}
+		}
+	}
+	switch {
+	case other:
+		return ""
+	case len(typeCalls) == 1 && typeCalls["MemOrder"] && len(lens) == 0:
+		return "memorder"
+	case len(typeCalls) > 0 && !typeCalls["MemOrder"] && len(lens) == 0:
+		return "special"
+	case len(typeCalls) == 0 && lens["stores"] && lens["loads"]:
+		return "memaccess"
+	}
+	return ""
 }
